@@ -44,8 +44,9 @@ def _derive(h, e):
 def run(tier, replay=None):
     c = Check("C03", tier)
     c.rule = ("one event per served audio segment (request by $Number$, by $Number$ under SegmentTimeline, and by $Time$ with the value "
-              "a client computes) or per MPD fetched at the same instant; scenario = (asset, addressing mode, startNumber, tsbd, start "
-              "time); assets: bundled AAC-1024 (2 s / 6 s / 8 s segments) and AC-3-1536, generated layouts with audio grid equal to / "
+              "a client computes; whole, and low-latency chunked with ato_ + chunkdur_ where all fragments of the body are concatenated and "
+              "compared sample by sample with the whole segment) or per MPD fetched at the same instant; scenario = (asset, addressing "
+              "mode, startNumber, tsbd, start time, availabilityTimeOffset/chunk duration); assets: bundled AAC-1024 (2 s / 6 s / 8 s segments) and AC-3-1536, generated layouts with audio grid equal to / "
               "different from the video grid, VoD audio shorter / longer than the video loop, 30000/1001 and 24000/1001 video, 12.8 kHz and "
               "10 MHz video timescales, reference track not starting at 0; indices: consecutive runs from 0 over all phases of the audio "
               "grid (M+1 loops), around wraps 10 and 1000, around a wrap at a wall-clock in 2025, seeded indices; distinct = distinct "
@@ -66,10 +67,10 @@ def run(tier, replay=None):
         # design counterexamples of the ORIGINAL algorithm (before /repo commits 9a9819e, 9a9f787), kept as documentation
         jobs += [("AudioResegImpl_MC", "AudioResegImpl_orig_endidx.cfg", dict(workers=1, expect="violation", expect_violated=("Served",), coverage=False)),
                  ("AudioResegImpl_MC", "AudioResegImpl_orig_gap.cfg", dict(workers=1, expect="violation", expect_violated=("Served",), coverage=False))]
-    res = c.models(jobs, parallel=4)
-    if tier == "thorough":
-        c.extra["design_counterexamples_original_algorithm"] = {"end_index_inside_one_vod_segment": res[4].violated,
-                                                                "segment_after_end_of_vod_audio": res[5].violated}
+    # (M) runs concurrently with build / drive / trace validation below (joined before the verdict)
+    from concurrent.futures import ThreadPoolExecutor
+    pool = ThreadPoolExecutor(max_workers=1)
+    models_fut = pool.submit(c.models, jobs, 4)
     c.exhaustive = False
 
     drive = vlib.build_harness(cmd="c03")
@@ -77,7 +78,7 @@ def run(tier, replay=None):
     args = ["-out", trace, "-work", c.work, "-seed", c.seed] + (["-thorough"] if tier == "thorough" else [])
     st = vlib.run_driver(drive, args, timeout=3000)
     # scenarios are independent (the trace specification resets its state at every header): validate chunks concurrently
-    r, lines = c.validate_trace_parallel("AudioReseg_Trace", trace, chunks=3 if tier == "quick" else 6, timeout=3000)
+    r, lines = c.validate_trace_parallel("AudioReseg_Trace", trace, chunks=4 if tier == "quick" else 6, timeout=3000)
     events = vlib.read_ndjson(trace)
     hdr, hdr_at = None, {}
     nseg = 0
@@ -87,22 +88,28 @@ def run(tier, replay=None):
         elif e["ev"] == "seg" and e["st"] == 200:
             nseg += 1
         hdr_at[i] = hdr
-    if nseg == 0 or st.get("frames", 0) == 0 or st.get("mpds", 0) == 0:
-        raise MachineryError(f"vacuous run: {nseg} served segments, {st.get('frames')} frames, {st.get('mpds')} MPDs")
+    if nseg == 0 or st.get("frames", 0) == 0 or st.get("mpds", 0) == 0 or st.get("ll_multi_fragment", 0) == 0:
+        raise MachineryError(f"vacuous run: {nseg} served segments, {st.get('frames')} frames, {st.get('mpds')} MPDs, "
+                             f"{st.get('ll_multi_fragment')} chunked bodies with more than one fragment")
     for f in vlib.bad_to_failures(r, events):
         if f["clause"].startswith("hdr."):
             raise MachineryError(f"driver/header inconsistency (clause {f['clause']}): {str(f)[:600]}")
         h = hdr_at.get(f["line"]) or {}
-        for k in ("asset", "rep", "mode", "snr", "ast", "tsbd", "cfg", "TS", "TSa", "F", "A", "M", "vod0", "asegs", "dur"):
+        for k in ("asset", "rep", "mode", "snr", "ast", "tsbd", "cfg", "ll", "TS", "TSa", "F", "A", "M", "vod0", "asegs", "dur"):
             f.setdefault(k, h.get(k))
         f.pop("cls", None)
         f.pop("at", None)
         f.update(_derive(h, events[f["line"] - 1]))
         c.add_failure(f)
+    res = models_fut.result()      # MachineryError of a model job propagates here
+    pool.shutdown()
+    if tier == "thorough":
+        c.extra["design_counterexamples_original_algorithm"] = {"end_index_inside_one_vod_segment": res[4].violated,
+                                                                "segment_after_end_of_vod_audio": res[5].violated}
     c.traces += st["scenarios"]
     c.events += lines
     c.distinct_nontrivial = st["distinct"]
     c.samples = st.get("samples", [])
-    for k in ("requests", "segments_served", "frames", "mpds", "mpd_audio_entries", "assets"):
+    for k in ("requests", "segments_served", "frames", "ll_segments", "ll_multi_fragment", "ll_fragments", "mpds", "mpd_audio_entries", "assets"):
         c.extra[k] = st.get(k)
     return c.finish()
